@@ -37,7 +37,14 @@ LEVEL_TEXT = ('Proved in Lean (Signac/Properties/C13.lean) for an executable mod
     'sync_sp_superset); every source file the walk has to deliver (absent in the destination, reached through common '
     'directories — below the top level only when recursive —, not excluded) is present byte-identically, in existing '
     '(sync_files_present) and cloned jobs (clone_files_present); paths, jobs and document keys (at any depth, ByKey; top level, '
-    'update) that only the destination has are untouched, also by failed runs (sync_dst_only_*). The model is compared with the '
+    'update) that only the destination has are untouched, also by failed runs (sync_dst_only_*). On a LIVE destination '
+    '(Signac/SyncLive.lean: the merge as a program of load / store-one-path steps on a shared file, another process rewriting '
+    'the file between any two steps) the step program refines the pure merge when nobody interferes (live_refines_pure, '
+    'live_refines_runDocSync, any nesting depth), no step ever changes a top-level key the source does not hold '
+    '(live_steps_keep_foreign_keys, no hypothesis), and under any interference that leaves the source keys alone the report and '
+    'the source keys are those of the quiet run and every foreign write survives (live_foreign_keys_preserved, '
+    'live_foreign_write_survives); a merge through an in-memory snapshot written back whole is refuted on a concrete schedule '
+    '(snapshot_merge_loses_writes). The model is compared with the '
     'real Project.sync / Job.sync / sync_projects / sync_jobs on every generated project pair, every call made twice; the direct '
     'oracle states the postcondition on byte snapshots.')
 LEVEL_NOTE = ("Idempotence ('repeating the same sync changes nothing') is proved in full (sync_idempotent_full_partial: every entry point, "
@@ -61,6 +68,10 @@ def generate(tier, rng):
         if target == "project" and entry == "job":
             continue
         yield {"kind": "live", "target": target, "nested": nested, "approve": approve, "entry": entry}
+    for entry, dst_has_job, link in itertools.product(("project", "job"), (False, True), ("rel", "abs")):
+        if entry == "job" and not dst_has_job:
+            continue
+        yield {"kind": "linkdir", "entry": entry, "dst_has_job": dst_has_job, "link": link}
     n = 9000 if tier == "quick" else 60000
     for _ in range(n):
         yield sc.gen_case(rng, "c13")
@@ -72,7 +83,7 @@ def search(rng, deadline):
 
 
 def shrink(case):
-    if case.get("kind") == "live":
+    if case.get("kind") in ("live", "linkdir"):
         return
     yield from sc.shrink_case(case)
 
@@ -158,9 +169,65 @@ def run_live(case, ctx):
             "key": "live:" + repr(sorted(case.items()))}
 
 
+def run_linkdir(case, ctx):
+    """A source job that reaches some of its files through a symbolic link to a directory (`latest -> run_3`): every
+    non-excluded source FILE absent from the destination is present afterwards - also the ones below the link,
+    whether the destination gets a link or a copy.  Recursive sync; newly cloned job or existing job.  Oracle only."""
+    import os
+
+    import signac
+
+    base = ctx.fresh_dir("c13link")
+    fails = []
+    try:
+        src = signac.init_project(os.path.join(base, "src"))
+        dst = signac.init_project(os.path.join(base, "dst"))
+        sp = {"a": 1}
+        sj = src.open_job(sp).init()
+        os.makedirs(sj.fn("run_3/deep"))
+        files = {"run_3/out.txt": "result", "run_3/deep/x.bin": "xx", "top.txt": "t"}
+        for rel, text in files.items():
+            with open(sj.fn(rel), "w") as f:
+                f.write(text)
+        os.symlink("run_3" if case["link"] == "rel" else sj.fn("run_3"), sj.fn("latest"))
+        if case["dst_has_job"]:
+            dj = dst.open_job(sp).init()
+            with open(dj.fn("top.txt"), "w") as f:
+                f.write("t")
+            os.utime(dj.fn("top.txt"), (1e9, 1e9))
+            os.utime(sj.fn("top.txt"), (1e9, 1e9))
+        err = None
+        try:
+            if case["entry"] == "job":
+                dst.open_job(sp).sync(sj, recursive=True)
+            else:
+                dst.sync(src, recursive=True, check_schema=False)
+        except Exception as e:  # noqa: BLE001
+            err = e
+        label = "source job with a symbolic link to a directory (%s entry, %s, %s link)" % (
+            case["entry"], "job exists in the destination" if case["dst_has_job"] else "job is cloned", case["link"])
+        if err is not None:
+            fails.append("%s: sync raised %s: %s" % (label, type(err).__name__, str(err)[:120]))
+        else:
+            dj = dst.open_job(sp)
+            for rel, text in list(files.items()) + [("latest/out.txt", "result"), ("latest/deep/x.bin", "xx")]:
+                try:
+                    with open(dj.fn(rel)) as f:
+                        got = f.read()
+                except OSError as e:
+                    got = "<%s>" % type(e).__name__
+                if got != text:
+                    fails.append("%s: source file %s is %s in the destination after the sync" % (label, rel, got))
+    finally:
+        ctx.cleanup(base)
+    return {"model": [], "impl": [], "oracle": fails, "tags": ["linkdir"], "key": "linkdir:" + repr(sorted(case.items()))}
+
+
 def run_case(case, ctx):
     if case.get("kind") == "live":
         return run_live(case, ctx)
+    if case.get("kind") == "linkdir":
+        return run_linkdir(case, ctx)
     o = sc.observe(case, ctx, second_run=True)
     fails = sc.oracle_c13(o)
     model, impl = [o.line1], [o.impl1]
@@ -171,6 +238,6 @@ def run_case(case, ctx):
 
 
 def known_class(case, result):
-    if case.get("kind") == "live":
+    if case.get("kind") in ("live", "linkdir"):
         return None
     return sc.known_class(case, result)
